@@ -11,6 +11,7 @@ structure DState where
   repo : Repo := {}
   hdrs : List (Nat × Hdr) := []      -- headers defined by the script
   genesis : Hdr := { id := 0, prev := 999999, bits := 0x1d00ffff, time := 1231006505 }
+  dumpFrom : Nat := 0     -- lowest height listed by dump (above 0 only after MockLatest)
 deriving Inhabited
 
 def showVerdict : Verdict → String
@@ -63,14 +64,15 @@ def dump (s : DState) : String :=
     | some (p, h) => s!"{i}:{p}:{h}"
     | none => s!"{i}:nil"
   let top := (tipHeight r + 1).toNat
-  let ats := (List.range (top + 1)).map fun (k : Nat) => match headerAt r (Int.ofNat k) with
+  let ats := ((List.range (top + 1)).filter (· ≥ s.dumpFrom)).map fun (k : Nat) => match headerAt r (Int.ofNat k) with
     | .ok hd => s!"{k}:{hd.id}"
     | .error e => s!"{k}:{showReadErr e}"
   let rng := fun (a : Int) (n : Nat) => match getHeaders r a n with
     | .ok l => s!"{a}+{n}:{showIds (l.map (·.id))}"
     | .error e => s!"{a}+{n}:{showReadErr e}"
   let th := tipHeight r
-  let ranges := [rng 0 (top + 2), rng (if th ≥ 3 then th - 3 else 0) 10, rng (th / 2) 5]
+  let df : Int := s.dumpFrom
+  let ranges := [rng df (top + 2 - s.dumpFrom), rng (if th ≥ 3 then th - 3 else 0) 10, rng (df + (th - df) / 2) 5]
   s!"{tipStr r} hh=[{joinWith "," hh}] ch=[{joinWith "," ch}] gh=[{joinWith "," gh}] ph=[{joinWith "," ph}] at=[{joinWith "," ats}] rg=[{joinWith ";" ranges}]"
 
 def evKind : StoreEv → String
@@ -211,7 +213,7 @@ def stepLine (s0 : DState) (line : String) : DState × String :=
         let b : Branch := { parent := none, parentHeight := height - 1, first := h, offset := 1,
                             headers := [{ hdr := h, work := work }], hmap := [(h.id, height)] }
         let r := { s.repo with arena := s.repo.arena ++ [b], branches := [s.repo.arena.length], longest := s.repo.arena.length }
-        ({ s with repo := r }, tipStr r)
+        ({ s with repo := r, dumpFrom := (height - 1).toNat }, tipStr r)
     | _, _, _ => (s, "bad-op")
   | "sub" :: rest =>
     match (kvNat rest "id").bind (fun i => List.lookup i s.hdrs) with
